@@ -1,6 +1,6 @@
 // SPDX-License-Identifier: MIT OR Apache-2.0
 
-use std::collections::HashSet;
+use std::collections::{BTreeSet, HashSet};
 use std::fmt::Display;
 use std::hash::Hash as StdHash;
 use std::str::FromStr;
@@ -229,7 +229,7 @@ where
                 let parent_ids: Vec<(String,)> = query_as(
                     "
                     SELECT
-                        parent_id
+                        DISTINCT parent_id
                     FROM
                         orderer_pending_v1
                     WHERE
@@ -328,6 +328,12 @@ where
     }
 
     async fn ready(&self, dependencies: &[ID]) -> Result<bool, Self::Error> {
+        // A dependency list is a set: an id which is named more than once matches only one row
+        // in the "ready" table, so the row count has to be compared with the number of
+        // _distinct_ ids.
+        let dependencies: BTreeSet<String> =
+            dependencies.iter().map(|dep| dep.to_string()).collect();
+
         self.tx(async |tx| {
             let sql = format!(
                 "
